@@ -13,6 +13,7 @@ DECIDED = ("R1 a held message's status can become deliverable only in Sent::deli
            "receive queue has room for the un-gated FIN of a released batch (shared with C02-R4).")
 NOT_DECIDED = ("independence of other links as behaviour, the combination with one-way partitions (documented unsupported), "
                "delivery instants.")
+DECIDED += "; R10 exhaustive scans: for_pairs, Link::hold / release / process_deliverables / deliver_messages, LinkIter::deliver_all and Topology::deliver_messages visit every element (no early exit, no truncating adaptor)"
 ASSUMPTIONS = ["Link::hold always marks both directions, so 'some direction Healthy' implies 'not held'"]
 
 SENT = "turmoil::top::Link::sent"
@@ -146,18 +147,19 @@ def r3(ctx):
             m = t["f"].rsplit("::", 1)[1]
             ok_m = m == "remove"
             da = [v[1].get("DeliverAfter") for v in ves if v[1].get("DeliverAfter")]
-            ok_da = bool(da) and b.dominated_by_any(bb, edges=da)
-            ok_le = bool(le_t) and b.dominated_by_any(bb, edges=le_t)
+            ok_da = bool(da) and dominated_mod_flags(b, bb, edges=da)
+            LE = re.compile(r"PartialOrd>::le$|^std::cmp::PartialOrd::le$")
+            ok_le = guarded_by_pred(b, bb, lambda o: o["k"] == "call" and callee_matches(o["t"], LE))
             ctx.inst(R, f"process_deliverables:{m}", ok_m and ok_da and ok_le, t["s"],
                      "message leaves the in-flight queue only when DeliverAfter(time) and time <= now" if ok_m and ok_da and ok_le else
                      "a message can leave the in-flight queue " + ("" if ok_da else "without being DeliverAfter (held messages mature) ") +
                      ("" if ok_le else "before its time ") + ("" if ok_m else f"through `{m}` (order not preserved)"))
             # `time <= now`: left operand from the status payload, right from Link::now
-            for sbb, t_e, f_e, o in guards_on(b, lambda o: o["k"] == "call" and re.search(r"PartialOrd>::le$|PartialOrd::le$", o["t"]["f"])):
-                a0 = Slicer(ctx.w).atoms(b, o["t"]["args"][0])
-                a1 = Slicer(ctx.w).atoms(b, o["t"]["args"][1])
+            for lbb, lt in b.calls(LE):
+                a0 = Slicer(ctx.w).atoms(b, lt["args"][0])
+                a1 = Slicer(ctx.w).atoms(b, lt["args"][1])
                 okc = "field:turmoil::top::Link::now" in a1 and "field:turmoil::top::Link::now" not in a0 and "field:turmoil::top::DeliveryStatus::0" in a0
-                ctx.inst(R, "process_deliverables:maturity-test", okc, o["t"]["s"], "maturity test is `time <= self.now`" if okc else
+                ctx.inst(R, "process_deliverables:maturity-test", okc, lt["s"], "maturity test is `time <= self.now`" if okc else
                          "maturity comparison is not `deliver-after time <= link clock`")
             pb = [x for x, t2 in b.calls("std::collections::VecDeque::push_back")]
             pc = path_counts(b, t["t"], lambda x: x in pb, stop_blocks=[bb]) if t["t"] is not None else None
